@@ -41,7 +41,8 @@ inline LMap gen_lmap(Tape& t, size_t maxTiles, unsigned minLg = 0) {
 	for (unsigned i = 0; i < nt; ++i) { std::array<uint8_t, 264> a; uint8_t b = t.u8(); for (size_t k = 0; k < 264; ++k) a[k] = uint8_t(k * 5 + b + i); m.terrains.push_back(a); }
 	unsigned ng = unsigned(t.below(7)); if (t.below(20) == 0) ng = 300;
 	unsigned longNames = 0;   // at most two very long names per map: one map stays below ~150 KB
-	for (unsigned i = 0; i < ng; ++i) { refmap::Group g; g.w = uint32_t(t.below(6)); g.h = uint32_t(t.below(6)); if (t.below(5) == 0) g.w = 0; else if (t.below(12) == 0) { g.w = uint32_t(t.pick<uint32_t>({1, 16, 40, 255, 256, 257})); g.h = uint32_t(1 + t.below(3)); } g.indices.resize(size_t(g.w) * g.h); for (auto& x : g.indices) x = t.u16(); g.name = gen_str(t, 20); if (t.below(16) == 0 && longNames < 2) { ++longNames; g.name = std::string(t.pick<size_t>({255, 256, 300, 70000}), char('a' + t.below(26))); } m.groups.push_back(g); }
+	for (unsigned i = 0; i < ng; ++i) { refmap::Group g; g.w = uint32_t(t.below(6)); g.h = uint32_t(t.below(6)); if (t.below(5) == 0) g.w = 0; else if (t.below(12) == 0) { g.w = uint32_t(t.pick<uint32_t>({1, 16, 40, 255, 256, 257})); g.h = uint32_t(1 + t.below(3)); } if (g.w == 5 && g.h == 5) { static const uint32_t wrapDims[4][2] = {{65536, 65536}, {0x80000001u, 2}, {0x10000, 0x10001}, {0x40000000u, 4}}; g.w = wrapDims[i % 4][0]; g.h = wrapDims[i % 4][1]; }   /* dimensions whose product passes 2^32: the index list has the product modulo 2^32 entries, as the reader sizes it */
+		g.indices.resize(size_t(uint32_t(g.w * g.h))); for (auto& x : g.indices) x = t.u16(); g.name = gen_str(t, 20); if (t.below(16) == 0 && longNames < 2) { ++longNames; g.name = std::string(t.pick<size_t>({255, 256, 300, 70000}), char('a' + t.below(26))); } m.groups.push_back(g); }
 	m.unknownWord = t.below(3) == 0 ? t.u32() : (ng ? ng - 1 : 0);
 	if (t.below(4) == 0) m.trailing = t.bytes(t.below(20));
 	return m;
